@@ -92,14 +92,29 @@ def stage_stress(pid, tier, seed, d, binp, st, ctx):
     iters = st["iters"][tier]
     mix = st.get("mix", "mixed")
     tr = os.path.join(d, "stress_%s.ndjson" % st["name"])
+    life_tr = os.path.join(d, "life_%s.ndjson" % st["name"])
+    if os.path.exists(life_tr):
+        os.remove(life_tr)
     p = ctx["run"]([binp, "stress", "--iters", str(iters), "--seed", str(seed), "--par", "16", "--mix", mix, "--out", tr],
-                   cwd=d, timeout=900 if tier == "quick" else 7200)
+                   cwd=d, timeout=900 if tier == "quick" else 7200, env={"RSACTOR_VERIF_TRACE": life_tr} if st.get("life") else None)
     files, nruns, nev = ctx["split_trace"](tr, d, "stress_" + st["name"], ctx["NCPU"])
     bads = ctx["trace_monitor"](d, files)
     json.dump(bads, open(os.path.join(d, "bads_stress_%s.json" % st["name"]), "w"))
     props = set(st.get("props", [pid]))
     mine = [b for b in bads if b[2] in props and (pid != "C12" or b[0] in ctx["crashed"])]
     viol = []
+    life_events = 0
+    if st.get("life") and os.path.exists(life_tr):
+        # the same workload as seen by the hooks inside rsactor, judged by LifeTrace.tla
+        levs, lbads = life_check(d, life_tr, st["name"], ctx)
+        life_events = len(levs)
+        for i, (pp, why, line) in enumerate([b for b in lbads if b[0] in props][:5]):
+            m = re.search(r'LIFEBAD\\?", (\d+), (\d+)', line)
+            key = (int(m.group(1)), int(m.group(2))) if m else None
+            rp = ctx["save_replay"](pid, "life_" + st["name"], i, None, [e for e in levs if key and (e["pid"], e["id"]) == key], [line[:600]])
+            viol.append(("life_" + st["name"], i, pp, why + " (hook log of the stress workload)", rp))
+        ctx["log"]("stress %s: %d lifecycle events logged by the hooks, LifeTrace violations of %s: %d"
+                   % (st["name"], life_events, sorted(props), len([b for b in lbads if b[0] in props])))
     runs = None
     seen = set()
     for (rid, line, prop, why) in mine:
@@ -359,6 +374,31 @@ def stage_apalache_mailbox(pid, tier, seed, d, binp, st, ctx):
                 violations=[], traces=0, samples=[], nontrivial_keys=[])
 
 
+def stage_apalache_waitfor(pid, tier, seed, d, binp, st, ctx):
+    """Apalache: the wait-for graph stays acyclic for histories of any length, and an ask is refused exactly when its edge
+    would close a cycle (4 actors)."""
+    import shutil
+    wd = os.path.join(d, "apalache_wf")
+    os.makedirs(wd, exist_ok=True)
+    shutil.copy2("/verif/spec/apalache/WaitForInd.tla", wd)
+    steps = [("base: Init => IndInv", ["--init=Init", "--inv=IndInv", "--length=0"]),
+             ("step: IndInv /\\ Next => IndInv'", ["--init=IndInit", "--inv=IndInv", "--length=1"]),
+             ("IndInv => DetectExact", ["--init=IndInit", "--inv=DetectExact", "--length=0"])]
+    res = []
+    for name, args in steps:
+        p = subprocess.run(["apalache-mc", "check", "--cinit=ConstInit"] + args + ["WaitForInd.tla"], cwd=wd, text=True,
+                           stdout=subprocess.PIPE, stderr=subprocess.STDOUT, timeout=1800)
+        ok = "The outcome is: NoError" in p.stdout
+        res.append({"obligation": name, "discharged": ok})
+        if not ok:
+            open(os.path.join(d, "apalache_wf.out"), "w").write(p.stdout)
+            raise ctx["ToolError"]("MODEL FAILURE: Apalache could not establish '%s' for spec/apalache/WaitForInd.tla" % name)
+    shutil.rmtree(os.path.join(wd, "_apalache-out"), ignore_errors=True)
+    ctx["log"]("apalache: the wait-for graph is inductively acyclic and the refusal of an ask is exact (3 obligations, 4 actors)")
+    return dict(coverage={"tool": "apalache-mc 0.58", "obligations": res, "actors": 4, "history_length": "unbounded (inductive)"},
+                violations=[], traces=0, samples=[], nontrivial_keys=[])
+
+
 def stage_small_model(pid, tier, seed, d, binp, st, ctx):
     """Exhaustive TLC run of a small stand-alone module (fine-grained sub-models); must complete without error."""
     mod = st["module"]
@@ -498,8 +538,35 @@ def stage_blocking_cases(pid, tier, seed, d, binp, st, ctx):
 
 REPO_TEST_ENV = {"CARGO_TARGET_DIR": "/verif/harness/target_repotests", "CARGO_NET_OFFLINE": "true",
                  "RUSTFLAGS": "--cfg rsactor_verif --check-cfg cfg(rsactor_verif)"}
-# two tests of the repository's suite park a handler for 120 s and then wait for the actor: thorough tier only
-REPO_TEST_SLOW = ["blocking_timeout_expiry_tests"]
+# tests of the repository's suite that park a handler for 10 - 120 s and then wait for the actor: thorough tier only
+REPO_TEST_SLOW = ["blocking_timeout_expiry_tests", "actual_timeout_tests::test_ask_with_timeout_actually_times_out",
+                  "blocking_timeout_tests::test_blocking_ask_with_timeout_expired", "blocking_timeout_tests::test_blocking_tell_with_timeout_expired",
+                  "test_dead_letter_ask_with_timeout", "test_dead_letter_timeout_while_stopping", "test_dead_letter_with_timeout"]
+
+
+def life_check(d, tr, tag, ctx):
+    """sorts the hook log `tr` by (process, ticket) and folds it through LifeTrace.tla; returns (events, [(prop, why, line)])"""
+    evs = [json.loads(l) for l in open(tr) if l.startswith("{")]
+    evs.sort(key=lambda e: (e["pid"], e["t"]))
+    with open(tr, "w") as f:
+        for e in evs:
+            f.write(json.dumps(e) + "\n")
+    open(os.path.join(d, "LifeTrace.cfg"), "w").write("SPECIFICATION Spec\nPOSTCONDITION Consumed\nCHECK_DEADLOCK FALSE\n")
+    e2 = dict(os.environ); e2["TRACE"] = tr
+    e2["JAVA_TOOL_OPTIONS"] = "-Xss1g -Dtlc2.tool.queue.IStateQueue=StateDeque"
+    q = subprocess.run(JAVA[:2] + ["-Xmx6g"] + JAVA[4:] + ["-workers", "1", "-metadir", os.path.join(d, "meta_life_" + tag), "-noGenerateSpecTE",
+                        "-config", "LifeTrace.cfg", "LifeTrace.tla"], cwd=d, env=e2, text=True,
+                       stdout=subprocess.PIPE, stderr=subprocess.STDOUT, timeout=3600)
+    o = q.stdout or ""
+    if "LIFECHECKED" not in o:
+        open(os.path.join(d, "LifeTrace_%s.out" % tag), "w").write(o)
+        raise ctx["ToolError"]("LifeTrace check did not complete (see LifeTrace_%s.out)" % tag)
+    bads = []
+    for line in o.splitlines():
+        if "LIFEBAD" in line:
+            for (pp, why) in re.findall(r'<<\\?"(C\d\d)\\?", \\?"([^"\\]*)', line):
+                bads.append((pp, why, line))
+    return evs, bads
 
 
 def stage_repo_tests(pid, tier, seed, d, binp, st, ctx):
@@ -524,28 +591,8 @@ def stage_repo_tests(pid, tier, seed, d, binp, st, ctx):
     if not os.path.exists(tr) or ntests == 0:
         open(os.path.join(d, "repo_tests.out"), "w").write(out[-30000:])
         raise ctx["ToolError"]("the repository's test suite produced no lifecycle trace (see repo_tests.out)")
-    # sort by process, then ticket (several test binaries append to the same file)
-    evs = [json.loads(l) for l in open(tr) if l.startswith("{")]
-    evs.sort(key=lambda e: (e["pid"], e["t"]))
-    with open(tr, "w") as f:
-        for e in evs:
-            f.write(json.dumps(e) + "\n")
-    open(os.path.join(d, "LifeTrace.cfg"), "w").write("SPECIFICATION Spec\nPOSTCONDITION Consumed\nCHECK_DEADLOCK FALSE\n")
-    e2 = dict(os.environ); e2["TRACE"] = tr
-    e2["JAVA_TOOL_OPTIONS"] = "-Xss1g -Dtlc2.tool.queue.IStateQueue=StateDeque"
-    q = subprocess.run(JAVA[:2] + ["-Xmx4g"] + JAVA[4:] + ["-workers", "1", "-metadir", os.path.join(d, "meta_life"), "-noGenerateSpecTE",
-                        "-config", "LifeTrace.cfg", "LifeTrace.tla"], cwd=d, env=e2, text=True,
-                       stdout=subprocess.PIPE, stderr=subprocess.STDOUT, timeout=1800)
-    o = q.stdout or ""
-    if "LIFECHECKED" not in o:
-        open(os.path.join(d, "LifeTrace.out"), "w").write(o)
-        raise ctx["ToolError"]("LifeTrace check did not complete (see LifeTrace.out)")
+    evs, bads = life_check(d, tr, "repo", ctx)
     props = set(st.get("props", [pid]))
-    bads = []
-    for line in o.splitlines():
-        if "LIFEBAD" in line:
-            for (pp, why) in re.findall(r'<<\\?"(C\d\d)\\?", \\?"([^"\\]*)', line):
-                bads.append((pp, why, line))
     mine = [b for b in bads if b[0] in props]
     viol = []
     for i, (pp, why, line) in enumerate(mine[:10]):
